@@ -352,15 +352,28 @@ theorem C09_alias_single_pass (op : Op) (A bc : Desc) (dt : Option Nat) (h : Acc
   | none => flowG_eval getOutput, h3
   | some d => simp only [expectedDtype] at h1; flowG_eval getOutput, h1, h3
 
+/-- **C09 (aliasing, single-pass wrappers: the SECOND operand as `out`).** A structuring element / weights / template that
+has the documented dtype, the image's shape and is C-contiguous may be passed as `out` too: the wrapper (erode, dilate,
+template_match: `if np.may_share_memory(Bc, output): Bc = Bc.copy()`) or the native filter iterator (which copies the
+filter into its own tables before the first store) works on a private copy; the buffer of the second operand is returned
+holding the result of the call without `out`, the image is intact. -/
+theorem C09_alias_second_operand (op : Op) (A bc : Desc) (dt : Option Nat) (h : Acceptable A bc dt) :
+    AliasSafe [A, bc] 1 (fun out => kernel1G true op 0 1 out dt) (.ap op (.inp 0) (.inp 1)) := by
+  obtain ⟨h1, h2, h3⟩ := h
+  cases dt with
+  | none => simp only [expectedDtype] at h1; flowG_eval getOutput, h1, h2, h3
+  | some d => simp only [expectedDtype] at h1; flowG_eval getOutput, h1, h2, h3
+
 /-- **C09 (aliasing: the guard is necessary, and it protects the image only).** Without the guard the kernel reads the
 image while it overwrites it: the model's result contains an unspecified operand and is not the result of the call without
 `out` (the real erode/dilate/locmax/convolve/median/… returned wrong values: repaired in b59f356, 5cc8b45, 4f4d652, cdef7af).
-Passing the *second* operand (structuring element / weights / template) as `out` is not protected by the guard either. -/
+The same holds for the second operand (structuring element / template) passed as `out` (third conjunct; repaired in
+fe3aaf2, f3c2a7a). -/
 theorem C09_alias_single_pass_unguarded (op : Op) (A bc : Desc) (h : Acceptable A A none) :
     (kernel1G false op 0 1 (some 0) none (initSt [A, bc] none)).retVal = some (.ap op .undef (.inp 1)) ∧
     ¬ AliasSafe [A, bc] 0 (fun out => kernel1G false op 0 1 out none) (.ap op (.inp 0) (.inp 1)) ∧
     (Acceptable A bc none →
-      (kernel1G true op 0 1 (some 1) none (initSt [A, bc] none)).retVal = some (.ap op (.inp 0) .undef)) := by
+      (kernel1G false op 0 1 (some 1) none (initSt [A, bc] none)).retVal = some (.ap op (.inp 0) .undef)) := by
   obtain ⟨-, -, h3⟩ := h
   refine ⟨?_, ?_, ?_⟩
   · flowG_eval getOutput, h3
@@ -369,34 +382,50 @@ theorem C09_alias_single_pass_unguarded (op : Op) (A bc : Desc) (h : Acceptable 
     simp only [expectedDtype] at h1
     flowG_eval getOutput, h1, h2, h3'
 
-/-- **C09-T2 for the guarded wrappers.** With an `out` that is a buffer of its own the guard does nothing: the
-round-4 programs honour the convention exactly like the earlier ones (fresh buffer without `out`; an acceptable `out` is
-returned and holds the complete result; any other `out` raises with nothing written) — with or without the guard. -/
-theorem C09_flow_guarded (g : Bool) (op : Op) (A B bc : Desc) (dt : Option Nat) :
+/-- **C09-T2 for the guarded wrappers (single pass, store-then-in-place).** With an `out` that is a buffer of its own the
+guards do nothing: the round-4 programs honour the convention exactly like the earlier ones (fresh buffer without `out`; an
+acceptable `out` is returned and holds the complete result; any other `out` raises with nothing written) — with or without
+the guards. -/
+theorem C09_flow_guarded (g : Bool) (op : Op) (A bc : Desc) (dt : Option Nat) :
     Honours [A, bc] A dt (fun out => kernel1G g op 0 1 out dt) (.ap op (.inp 0) (.inp 1)) ∧
-    Honours [A, bc] A none (openGP g 0 1) (.ap .dilate (.ap .erode (.inp 0) (.inp 1)) (.inp 1)) ∧
-    Honours [A, bc] A none (closeGP g 0 1) (.ap .erode (.ap .dilate (.inp 0) (.inp 1)) (.inp 1)) ∧
-    Honours [A, B, bc] A none (cerodeGP g 0 1 2)
-      (.ap .maximum (.ap .erode (.ap .maximum (.inp 0) (.inp 1)) (.inp 2)) (.inp 1)) ∧
-    Honours [A, B] A none (submGP g 0 1) (.ap .subm (.inp 0) (.inp 1)) ∧
-    Honours [A, bc] A none (tophatCloseGP g 0 1)
-      (.ap .subm (.ap .erode (.ap .dilate (.inp 0) (.inp 1)) (.inp 1)) (.inp 0)) ∧
-    Honours [A, bc] A none (tophatOpenGP g 0 1)
-      (.ap .subm (.inp 0) (.ap .dilate (.ap .erode (.inp 0) (.inp 1)) (.inp 1))) ∧
-    Honours [A, bc] A dt (fun out => inplaceP op 0 1 out dt) (.ap op (.inp 0) (.inp 1)) := by
-  refine ⟨?_, ?_, ?_, ?_, ?_, ?_, ?_, ?_⟩
+    Honours [A, bc] A dt (fun out => inplaceP g op 0 1 out dt) (.ap op (.inp 0) (.inp 1)) := by
+  refine ⟨?_, ?_⟩
   · cases g <;> cases dt with
     | none => honoursG_tac A, none
     | some d => honoursG_tac A, (some d)
-  · cases g <;> honoursG_tac A, none
-  · cases g <;> honoursG_tac A, none
-  · cases g <;> honoursG_tac A, none
-  · cases g <;> honoursG_tac A, none
-  · cases g <;> honoursG_tac A, none
-  · cases g <;> honoursG_tac A, none
-  · cases dt with
+  · cases g <;> cases dt with
     | none => honoursG_tac A, none
     | some d => honoursG_tac A, (some d)
+
+/-- **C09-T2 for the guarded two-pass wrappers** (`open`, `close` over the guarded `erode`/`dilate`, with their own guard
+for the structuring element): the convention holds as before, with or without the guards. -/
+theorem C09_flow_guarded_open_close (g : Bool) (A bc : Desc) :
+    Honours [A, bc] A none (openGP g 0 1) (.ap .dilate (.ap .erode (.inp 0) (.inp 1)) (.inp 1)) ∧
+    Honours [A, bc] A none (closeGP g 0 1) (.ap .erode (.ap .dilate (.inp 0) (.inp 1)) (.inp 1)) := by
+  refine ⟨?_, ?_⟩
+  · cases g <;> honoursG_tac A, none
+  · cases g <;> honoursG_tac A, none
+
+/-- **C09-T2 for the guarded `cerode` and `subm`.** -/
+theorem C09_flow_guarded_cerode_subm (g : Bool) (A B bc : Desc) :
+    Honours [A, B, bc] A none (cerodeGP g 0 1 2)
+      (.ap .maximum (.ap .erode (.ap .maximum (.inp 0) (.inp 1)) (.inp 2)) (.inp 1)) ∧
+    Honours [A, B] A none (submGP g 0 1) (.ap .subm (.inp 0) (.inp 1)) := by
+  refine ⟨?_, ?_⟩
+  · cases g <;> honoursG_tac A, none
+  · cases g <;> honoursG_tac A, none
+
+/-- **C09-T2 for the guarded `tophat_close`.** -/
+theorem C09_flow_guarded_tophat_close (g : Bool) (A bc : Desc) :
+    Honours [A, bc] A none (tophatCloseGP g 0 1)
+      (.ap .subm (.ap .erode (.ap .dilate (.inp 0) (.inp 1)) (.inp 1)) (.inp 0)) := by
+  cases g <;> honoursG_tac A, none
+
+/-- **C09-T2 for the guarded `tophat_open`.** -/
+theorem C09_flow_guarded_tophat_open (g : Bool) (A bc : Desc) :
+    Honours [A, bc] A none (tophatOpenGP g 0 1)
+      (.ap .subm (.inp 0) (.ap .dilate (.ap .erode (.inp 0) (.inp 1)) (.inp 1))) := by
+  cases g <;> honoursG_tac A, none
 
 /-- **C09 (aliasing, `open` / `close`).** `open(f, Bc, out=f)`: the first pass (`erode`, guarded) reads a copy of `f` and
 writes `f`; the second pass works on `eroded.copy()` and writes `eroded` = `f`: the input buffer is returned and holds the
@@ -405,6 +434,18 @@ theorem C09_alias_open_close (f bc : Desc) (hc : f.ccontig = true) :
     AliasSafe [f, bc] 0 (openGP true 0 1) (.ap .dilate (.ap .erode (.inp 0) (.inp 1)) (.inp 1)) ∧
     AliasSafe [f, bc] 0 (closeGP true 0 1) (.ap .erode (.ap .dilate (.inp 0) (.inp 1)) (.inp 1)) := by
   constructor <;> flowG_eval getOutput, hc
+
+/-- **C09 (aliasing, `open` / `close` with the structuring element as `out`).** `if np.may_share_memory(Bc, out): Bc = Bc.copy()`
+in front of the two passes: both passes use the saved element although the first pass overwrites `out` = `Bc`. Without the
+guards the second pass would use the eroded image as its structuring element (third conjunct). -/
+theorem C09_alias_open_close_Bc (f bc : Desc) (h : Acceptable f bc none) :
+    AliasSafe [f, bc] 1 (openGP true 0 1) (.ap .dilate (.ap .erode (.inp 0) (.inp 1)) (.inp 1)) ∧
+    AliasSafe [f, bc] 1 (closeGP true 0 1) (.ap .erode (.ap .dilate (.inp 0) (.inp 1)) (.inp 1)) ∧
+    (openGP false 0 1 (some 1) (initSt [f, bc] none)).retVal ≠
+      some (.ap .dilate (.ap .erode (.inp 0) (.inp 1)) (.inp 1)) := by
+  obtain ⟨h1, h2, h3⟩ := h
+  simp only [expectedDtype] at h1
+  refine ⟨?_, ?_, ?_⟩ <;> flowG_eval getOutput, h1, h2, h3
 
 /-- **C09 (aliasing, `cerode`).** `out = f` needs no guard (the kernel reads the temporary `maximum(f, g)`); `out = g` is
 safe because of the guard `if np.may_share_memory(g, out): g = g.copy()`: the final `maximum(eroded, g)` uses the saved
@@ -419,8 +460,15 @@ theorem C09_alias_cerode (f g bc : Desc) :
     (Acceptable f g none →
       (cerodeGP false 0 1 2 (some 1) (initSt [f, g, bc] none)).retVal =
         some (.ap .maximum (.ap .erode (.ap .maximum (.inp 0) (.inp 1)) (.inp 2))
-                           (.ap .erode (.ap .maximum (.inp 0) (.inp 1)) (.inp 2)))) := by
-  refine ⟨fun hc gd => ?_, ?_, ?_⟩
+                           (.ap .erode (.ap .maximum (.inp 0) (.inp 1)) (.inp 2)))) ∧
+    (Acceptable f bc none →
+      AliasSafe [f, g, bc] 2 (cerodeGP true 0 1 2)
+        (.ap .maximum (.ap .erode (.ap .maximum (.inp 0) (.inp 1)) (.inp 2)) (.inp 1))) := by
+  refine ⟨fun hc gd => ?_, ?_, ?_, ?_⟩
+  rotate_left 3
+  · rintro ⟨h1, h2, h3⟩
+    simp only [expectedDtype] at h1
+    flowG_eval getOutput, h1, h2, h3
   · cases gd <;> flowG_eval getOutput, hc
   · rintro ⟨h1, h2, h3⟩
     simp only [expectedDtype] at h1
@@ -458,13 +506,27 @@ theorem C09_alias_tophat (f bc : Desc) (hc : f.ccontig = true) :
 
 /-- **C09 (aliasing, store-then-in-place wrappers: `label`, `spline_filter1d`, `spline_filter`).**
 `output = _get_output(array, out, dtype); output[...] = array; kernel(output, …)`: with `out = array` the store is a
-self-assignment and the kernel only ever works on `output`: safe without any guard. -/
-theorem C09_alias_inplace (op : Op) (A bc : Desc) (dt : Option Nat) (h : Acceptable A A dt) :
-    AliasSafe [A, bc] 0 (fun out => inplaceP op 0 1 out dt) (.ap op (.inp 0) (.inp 1)) := by
-  obtain ⟨h1, -, h3⟩ := h
-  cases dt with
-  | none => flowG_eval getOutput, h3
-  | some d => simp only [expectedDtype] at h1; flowG_eval getOutput, h1, h3
+self-assignment and the kernel only ever works on `output`: safe without any guard. `label` also reads a structuring
+element: passed as `out` it is saved by `if np.may_share_memory(Bc, output): Bc = Bc.copy()` before the store (second
+conjunct); without that guard the store would overwrite it first (third conjunct; repaired in 1c2ac70). -/
+theorem C09_alias_inplace (g : Bool) (op : Op) (A bc : Desc) (dt : Option Nat) :
+    (Acceptable A A dt → AliasSafe [A, bc] 0 (fun out => inplaceP g op 0 1 out dt) (.ap op (.inp 0) (.inp 1))) ∧
+    (Acceptable A bc dt → AliasSafe [A, bc] 1 (fun out => inplaceP true op 0 1 out dt) (.ap op (.inp 0) (.inp 1))) ∧
+    (Acceptable A bc dt →
+      (inplaceP false op 0 1 (some 1) dt (initSt [A, bc] none)).retVal = some (.ap op (.inp 0) .undef)) := by
+  refine ⟨?_, ?_, ?_⟩
+  · rintro ⟨h1, -, h3⟩
+    cases g <;> cases dt with
+    | none => flowG_eval getOutput, h3
+    | some d => simp only [expectedDtype] at h1; flowG_eval getOutput, h1, h3
+  · rintro ⟨h1, h2, h3⟩
+    cases dt with
+    | none => simp only [expectedDtype] at h1; flowG_eval getOutput, h1, h2, h3
+    | some d => simp only [expectedDtype] at h1; flowG_eval getOutput, h1, h2, h3
+  · rintro ⟨h1, h2, h3⟩
+    cases dt with
+    | none => simp only [expectedDtype] at h1; flowG_eval getOutput, h1, h2, h3
+    | some d => simp only [expectedDtype] at h1; flowG_eval getOutput, h1, h2, h3
 
 /-- **C09 (aliasing, `gaussian_filter`, every number of axes).** `gaussian_filter(array, σ, out=array)`: `output[...] =
 array[...]` is a self-assignment, every pass reads one buffer and writes the *other* one of the ping-pong (never the one it
@@ -510,12 +572,12 @@ then the native call on the (possibly copied) `x` and `out` (`kernel1G true`, th
 an in-place kernel on the output only (`C09_alias_inplace`); `pingpong`: `C09_alias_gaussian`; `elementwise`:
 `remove_bordering` (numpy element-wise statements only, in-place use documented). -/
 def C09.aliasPlan : List (String × String × List (String × String)) := [
-  ("morph.dilate", "guarded", [("get_output", "(A,out,None,output)"), ("unalias", "A|A~output"), ("native", "_morph.dilate(A,Bc,output)")]),
-  ("morph.erode", "guarded", [("get_output", "(A,out,None,output)"), ("unalias", "A|A~output"), ("native", "_morph.erode(A,Bc,output)")]),
-  ("morph.cerode", "cerode", [("get_output", "(f,out,None,output)"), ("unalias", "g|g~out"), ("native", "_morph.erode(f,Bc,out)"), ("call", "np.maximum(f,g,out=f)")]),
+  ("morph.dilate", "guarded", [("get_output", "(A,out,None,output)"), ("unalias", "A|A~output"), ("unalias", "Bc|Bc~output"), ("native", "_morph.dilate(A,Bc,output)")]),
+  ("morph.erode", "guarded", [("get_output", "(A,out,None,output)"), ("unalias", "A|A~output"), ("unalias", "Bc|Bc~output"), ("native", "_morph.erode(A,Bc,output)")]),
+  ("morph.cerode", "cerode", [("get_output", "(f,out,None,output)"), ("unalias", "g|g~out"), ("unalias", "Bc|Bc~out"), ("native", "_morph.erode(f,Bc,out)"), ("call", "np.maximum(f,g,out=f)")]),
   ("morph.hitmiss", "guarded", [("unalias", "input|input~out"), ("native", "_morph.hitmiss(input,Bc,out)")]),
-  ("morph.open", "compose", [("call", "erode(f,Bc,out=out,output=output)"), ("call", "dilate(eroded.copy(),Bc,out=eroded)")]),
-  ("morph.close", "compose", [("call", "dilate(f,Bc,out=out,output=output)"), ("call", "erode(dilated.copy(),Bc,out=dilated)")]),
+  ("morph.open", "compose", [("unalias", "Bc|Bc~out if out is not None else output"), ("call", "erode(f,Bc,out=out,output=output)"), ("call", "dilate(eroded.copy(),Bc,out=eroded)")]),
+  ("morph.close", "compose", [("unalias", "Bc|Bc~out if out is not None else output"), ("call", "dilate(f,Bc,out=out,output=output)"), ("call", "erode(dilated.copy(),Bc,out=dilated)")]),
   ("morph.majority_filter", "guarded", [("get_output", "(img,out,np.bool_,output)"), ("unalias", "img|img~output"), ("native", "_morph.majority_filter(img,N,output)")]),
   ("morph.locmax", "guarded", [("get_output", "(f,out,np.bool_,output)"), ("unalias", "f|f~output"), ("native", "_morph.locmin_max(f,Bc,output,False)")]),
   ("morph.locmin", "guarded", [("get_output", "(f,out,np.bool_,output)"), ("unalias", "f|f~output"), ("native", "_morph.locmin_max(f,Bc,output,True)")]),
@@ -531,12 +593,12 @@ def C09.aliasPlan : List (String × String × List (String × String)) := [
   ("convolve.median_filter", "guarded", [("get_output", "(f,out,None,output)"), ("unalias", "f|f~output"), ("native", "_convolve.rank_filter(f,Bc,output,int(rank),mode2int[mode])")]),
   ("convolve.mean_filter", "guarded", [("get_output", "(f,out,np.float64)"), ("unalias", "f|f~out"), ("native", "_convolve.mean_filter(f,Bc,out,mode2int[mode],cval)")]),
   ("convolve.rank_filter", "guarded", [("get_output", "(f,out,None,output)"), ("unalias", "f|f~output"), ("native", "_convolve.rank_filter(f,Bc,output,rank,mode2int[mode])")]),
-  ("convolve.template_match", "guarded", [("get_output", "(f,out,None,output)"), ("unalias", "f|f~output"), ("native", "_convolve.template_match(f,template,output,mode2int[mode],0)")]),
+  ("convolve.template_match", "guarded", [("get_output", "(f,out,None,output)"), ("unalias", "f|f~output"), ("unalias", "template|template~output"), ("native", "_convolve.template_match(f,template,output,mode2int[mode],0)")]),
   ("convolve.gaussian_filter1d", "compose", [("call", "convolve1d(array,weights,axis,mode,cval,out=out)")]),
   ("convolve.gaussian_filter", "pingpong", [("get_output", "(array,out,None,output)"), ("store", "output[...]=array[...]"),
      ("call", "gaussian_filter1d(output,sigma,axis,order,mode,cval,noutput)"), ("store", "result[...]=output"), ("return", "result")]),
-  ("labeled.label", "inplace", [("get_output", "(array,out,np.int32,output)"), ("store", "output[:]=array != 0"), ("native", "_labeled.label(output,Bc)")]),
-  ("labeled.remove_bordering", "elementwise", [("store", "out[:]=im"), ("return", "out")]),
+  ("labeled.label", "inplace", [("get_output", "(array,out,np.int32,output)"), ("unalias", "Bc|Bc~output"), ("store", "output[:]=array != 0"), ("native", "_labeled.label(output,Bc)")]),
+  ("labeled.remove_bordering", "elementwise", [("unalias", "im|out~im"), ("store", "out[:]=im"), ("return", "out")]),
   ("labeled.border", "guarded", [("get_output", "(labeled,out,bool,output)"), ("unalias", "labeled|labeled~output"), ("fill", "output(False)"),
      ("native", "_labeled.border(labeled,Bc,output,i,j,bool(always_return))")]),
   ("labeled.borders", "guarded", [("get_output", "(labeled,out,bool,output)"), ("unalias", "labeled|labeled~output"), ("fill", "output(False)"),
@@ -558,7 +620,8 @@ parameter are exactly the planned ones, in order; (2) for each, the events its c
 that order** — in particular every `guarded` wrapper still has its `if np.may_share_memory(x, out): x = x.copy()` *after*
 `_get_output` and *before* the native call; (3) every `guarded` plan does contain such a guard and a native call after it
 (the plan itself is not vacuous), and the only native kernels called on an `out` buffer that may be the input without a guard
-are the in-place ones (`label`, `spline_filter1d`, `subm`). Removing or moving one guard makes this `decide` fail. -/
+are the in-place ones without a second array operand (`spline_filter1d`, `spline_filter`); `label` and `subm` work in place
+and guard their second operand. Removing or moving one guard makes this `decide` fail. -/
 theorem C09_alias_guards_source_tie :
     Generated.outEvents.map (·.1) = C09.aliasPlan.map (·.1) ∧
     C09.aliasPlan.all (fun p => C09.isSubseq p.2.2 (C09.eventsOf p.1)) = true ∧
@@ -567,7 +630,7 @@ theorem C09_alias_guards_source_tie :
       | _ :: rest => rest.any (·.1 == "native")
       | [] => false) = true ∧
     (Generated.outEvents.filter (fun e => e.2.any (·.1 == "native") && !e.2.any (·.1 == "unalias"))).map (·.1) =
-      ["labeled.label", "interpolate.spline_filter1d", "interpolate.spline_filter"] := by
+      ["interpolate.spline_filter1d", "interpolate.spline_filter"] := by
   decide +kernel
 
 
